@@ -112,6 +112,9 @@ static void cut_classes(const Poly &sh, const vector<Poly> &scS, double ax, doub
       for (size_t j = ci + 1; j < scS.size(); j++) for (auto &v : scS[j].v) if ((aOn && v.x == ax && v.y == ay) || (bOn && v.x == bx && v.y == by)) newer = true;
       if (newer && !ortho) kc2.push_back("chord_from_newer_vertex"); }
 }
+static double g_bufNow = 0;   // shapeBufferDistance of the running phase (library units)
+// is q inside or on the border of the routing polygon of sh = sh offset outwards by buf (every edge line moved out by buf, mitred corners)?
+static bool inClosedBufferZone(const Poly &shS, double qx, double qy, double buf) { for (size_t e = 0; e < shS.v.size(); e++) { P u = shS.v[e], w = shS.v[(e + 1) % shS.v.size()]; double ex = w.x - u.x, ey = w.y - u.y, cr = ex * (qy - u.y) - (qx - u.x) * ey; if (cr / hypot(ex, ey) < -buf - 1e-9) return false; } return true; }
 static void judge_valid(const vector<Poly> &sc, const vector<Poly> &scS, P a, P b, const Avoid::PolyLine &r, bool ortho, int G,
                         const string &what, const vector<string> &kc) {
     // scS = shapes in library coordinates (scaled by S)
@@ -129,9 +132,12 @@ static void judge_valid(const vector<Poly> &sc, const vector<Poly> &scS, P a, P 
     for (size_t k = 1; k < r.size(); k++) for (auto &sh : scS)
         if (hitsInteriorD(sh, r.ps[k - 1].x, r.ps[k - 1].y, r.ps[k].x, r.ps[k].y, 1e-6)) {
             vector<string> kc2 = kc; cut_classes(sh, scS, r.ps[k - 1].x, r.ps[k - 1].y, r.ps[k].x, r.ps[k].y, ortho, kc2);
+            // polyline routing treats the buffer zone as part of the shape: an endpoint inside it or ON its border counts as enclosed by the shape, which is then no obstacle for that connector (KF-C03-6)
+            if (!ortho && g_bufNow > 0 && (inClosedBufferZone(sh, a.x * S, a.y * S, g_bufNow) || inClosedBufferZone(sh, b.x * S, b.y * S, g_bufNow))) kc2.push_back("polyline_endpoint_in_closed_buffer_zone_of_cut_shape");
             ctx.violation("through_shape", kc2, desc, route_str(r)); return; }
     if (ortho) for (size_t k = 1; k < r.size(); k++) if (r.ps[k].x != r.ps[k - 1].x && r.ps[k].y != r.ps[k - 1].y) { ctx.violation("not_orthogonal", kc, desc, route_str(r)); return; }
 }
+static vector<Poly> scaledBy(const vector<Poly> &sc, long long m) { vector<Poly> o = sc; for (auto &p : o) for (auto &v : p.v) { v.x *= m; v.y *= m; } return o; }
 static vector<Poly> scaled(const vector<Poly> &sc) { vector<Poly> o = sc; for (auto &p : o) for (auto &v : p.v) { v.x *= S; v.y *= S; } return o; }
 
 static void c03_phase(int G, int k, bool ortho, double buf, bool touchingWithBuffer) {
@@ -144,6 +150,10 @@ static void c03_phase(int G, int k, bool ortho, double buf, bool touchingWithBuf
         if (!ctx.next()) return;
         vector<string> kc; if (close) kc.push_back("buffer_overlap");
         vector<P> fr = free_points(sc, G); vector<Poly> scS = scaled(sc);
+        g_bufNow = buf;
+        // several orthogonal connectors in one router, some endpoint exactly ON the border of a buffer zone: that endpoint splits the border's visibility segment and the
+        // search of the OTHER connectors does not pass foreign endpoint vertices (the mechanism of KF-C20-2), so they lose the way along that border (KF-C03-7)
+        vector<string> kcAll = kc; if (ortho && buf > 0) { bool on = false; for (auto &q : fr) for (auto &sh : scS) if (inClosedBufferZone(sh, q.x * S, q.y * S, buf) && !inClosedBufferZone(sh, q.x * S, q.y * S, buf - 1e-6)) on = true; if (on) kcAll.push_back("other_connector_endpoint_on_a_buffer_border"); }
         ctx.count("states"); ctx.sample((ortho ? "orthogonal " : "polyline ") + scene_str(sc));
         vector<pair<P, P>> eps; for (size_t a = 0; a < fr.size(); a++) for (size_t b = a + 1; b < fr.size(); b++) eps.push_back({fr[a], fr[b]});
         try {
@@ -168,12 +178,12 @@ static void c03_phase(int G, int k, bool ortho, double buf, bool touchingWithBuf
                 r = mk_router(true, 10, buf, sc);
                 vector<Avoid::ConnRef *> cs; for (auto &e : eps) cs.push_back(mk_conn(r, e.first, e.second));
                 r->processTransaction();
-                for (size_t i = 0; i < eps.size(); i++) judge_valid(sc, scS, eps[i].first, eps[i].second, cs[i]->displayRoute(), true, G, mcx::fmt("orthogonal all-in-one buf=%g", buf), kc);
+                for (size_t i = 0; i < eps.size(); i++) judge_valid(sc, scS, eps[i].first, eps[i].second, cs[i]->displayRoute(), true, G, mcx::fmt("orthogonal all-in-one buf=%g", buf), kcAll);
                 delete r;
             }
         }
         } catch (vpsc::CriticalFailure &f) { ctx.library_abort(f.what(), (ortho ? "orthogonal " : "polyline ") + mcx::fmt("buf=%g scene ", buf) + scene_str(sc)); }
-        ctx.done_case();
+        g_bufNow = 0; ctx.done_case();
     });
 }
 
@@ -466,6 +476,50 @@ static void c04_phase(int G, int k, double penCells, bool tris) {
     });
 }
 
+// Near-ties: on the integer grid two homotopically different routes either have exactly the same length or differ by a large fraction of a
+// cell, so nothing ever lands between the property's tolerance (1e-6) and a visible difference.  Here one shape of the scene is displaced by
+// 1 or 4 units of 2^-19 cell (1.9e-5 / 7.6e-5 library units; exact in binary), in each of the four axis directions: the mirror routes round
+// that shape now differ by something between 1e-6 and 1e-4, and the router still has to return the shorter one.  Oracle: the same exact
+// visibility graph, on the integer micro-cell coordinates.
+static void c04_neartie_phase(int G, int k, bool tris) {
+    const ll M = 1 << 19; vector<Poly> alpha = shape_alphabet(G, tris);
+    ctx.phase(mcx::fmt("C04 polyline near-ties G=%d shapes=%d %s: one shape displaced by 1 or 4 x 2^-19 cell in each axis direction", G, k, tris ? "rect+tri" : "rect"));
+    for_scenes(alpha, k, 0, false, [&](const vector<Poly> &sc) {
+        if (!ctx.next()) return;
+        vector<P> fr = free_points(sc, G); ctx.count("states"); ctx.sample("near-ties " + scene_str(sc));
+        static const int DX[4] = {1, -1, 0, 0}, DY[4] = {0, 0, 1, -1};
+        for (size_t which = 0; which < sc.size(); which++) for (int dir = 0; dir < 4; dir++) for (ll delta : {1, 4}) {
+            vector<Poly> scM = sc; for (auto &pl : scM) for (auto &v : pl.v) { v.x *= M; v.y *= M; } for (auto &v : scM[which].v) { v.x += DX[dir] * delta; v.y += DY[dir] * delta; }
+            bool ov = false; for (size_t j = 0; j < scM.size(); j++) if (j != which && interiorsOverlap(scM[which], scM[j])) ov = true; if (ov) continue;
+            string desc = "polyline near-tie scene " + scene_str(sc) + mcx::fmt(" shape %zu displaced by (%d,%d) x %lld x 2^-19 cell", which, DX[dir], DY[dir], delta);
+            try {
+                Avoid::Router *r = new Avoid::Router(Avoid::PolyLineRouting); r->setRoutingParameter(Avoid::segmentPenalty, 0); r->setRoutingParameter(Avoid::shapeBufferDistance, 0);
+                for (auto &sh : scM) { Avoid::Polygon pg(sh.v.size()); for (size_t q = 0; q < sh.v.size(); q++) pg.ps[q] = Avoid::Point((double)sh.v[q].x * S / M, (double)sh.v[q].y * S / M); new Avoid::ShapeRef(r, pg); }
+                vector<Avoid::ConnRef *> cs; vector<pair<P, P>> eps;
+                for (size_t a = 0; a < fr.size(); a++) for (size_t b = 0; b < fr.size(); b++) if (a != b) { eps.push_back({fr[a], fr[b]}); cs.push_back(mk_conn(r, fr[a], fr[b])); }
+                r->processTransaction();
+                for (size_t i = 0; i < eps.size(); i++) {
+                    ctx.count("transitions"); ctx.count("evaluations");
+                    const Avoid::PolyLine &rt = cs[i]->displayRoute();
+                    P aM{eps[i].first.x * M, eps[i].first.y * M}, bM{eps[i].second.x * M, eps[i].second.y * M};
+                    VisGraph vg(scM, aM, bM, false); double oM = vg.shortest(0, false); if (oM > 1e17) { ctx.count("no_free_path"); continue; }
+                    double o = oM * S / M;
+                    // vacuity audit: a near-tie is present when the undisplaced scene has two tied mirror routes round the shape -- then the optimum DROPS whichever way
+                    // the shape is displaced along this axis (minimum of two linear functions), whereas a unique optimum touching the shape gets longer one way
+                    { vector<Poly> scN = scaledBy(sc, M); for (auto &v : scN[which].v) { v.x -= DX[dir] * delta; v.y -= DY[dir] * delta; } VisGraph v0(scaledBy(sc, M), aM, bM, false), vn(scN, aM, bM, false);
+                      double o0 = v0.shortest(0, false) * S / M, on = vn.shortest(0, false) * S / M; if (o < o0 - 1e-7 && on < o0 - 1e-7) ctx.count("nontrivial"); }
+                    double len = 0; for (size_t q = 1; q < rt.size(); q++) len += hypot(rt.ps[q].x - rt.ps[q - 1].x, rt.ps[q].y - rt.ps[q - 1].y);
+                    bool inval = rt.size() < 2; for (size_t q = 1; q < rt.size() && !inval; q++) for (auto &sh : scM) { Poly u = sh; if (hitsInteriorD(u, rt.ps[q - 1].x * M / S, rt.ps[q - 1].y * M / S, rt.ps[q].x * M / S, rt.ps[q].y * M / S, 1e-3)) inval = true; }
+                    if (inval) { ctx.count("invalid_route_left_to_C03"); continue; }
+                    if (len > o + 1e-6 || len < o - 1e-6) ctx.violation(len > o ? "longer_than_optimal" : "shorter_than_possible", {"near_tie"}, desc + mcx::fmt(" conn (%lld,%lld)->(%lld,%lld)", eps[i].first.x, eps[i].first.y, eps[i].second.x, eps[i].second.y), mcx::fmt("route length %.12g, shortest path %.12g (difference %.3g), route ", len, o, len - o) + route_str(rt));
+                }
+                delete r;
+            } catch (vpsc::CriticalFailure &f) { ctx.library_abort(f.what(), desc); }
+        }
+        ctx.done_case();
+    });
+}
+
 // ---- C05 ------------------------------------------------------------------------------
 static double ortho_cost(const Avoid::PolyLine &r, double penCells, bool &diag) {
     vector<Avoid::Point> ps; for (size_t i = 0; i < r.size(); i++) { if (!ps.empty() && ps.back().x == r.ps[i].x && ps.back().y == r.ps[i].y) continue; ps.push_back(r.ps[i]); }
@@ -684,6 +738,8 @@ int main(int argc, char **argv) {
         c03_phase(3, 2, false, 0, false); c03_phase(3, 2, true, 0, false);
         c03_phase(3, 1, false, 2, false); c03_phase(3, 2, false, 2, false); c03_phase(3, 2, true, 2, false);
         c03_phase(3, 2, false, 2, true); c03_phase(3, 2, true, 2, true);
+        // buffer = exactly one cell: every free grid point next to a shape lies exactly ON the border of that shape's buffer zone (the scan's <= / < decisions)
+        c03_phase(3, 1, true, 10, false); c03_phase(3, 1, false, 10, false); c03_phase(4, 1, true, 10, false); c03_phase(3, 2, true, 10, false); c03_phase(3, 2, true, 10, true); c03_phase(3, 2, false, 10, true);
         c03_orders_phase(3, 2, 1); c03_orders_phase(3, 3, 3);
         for (int os = 0; os < 4; os++) for (int ortho = 0; ortho < 2; ortho++) { c03_attached_phase(3, 2, ortho, 0, os); if (os == 0 || T) c03_attached_phase(3, 3, ortho, 0, os); }
         c03_attached_phase(3, 2, false, 2, 0); c03_attached_phase(3, 2, true, 2, 0); c03_attached_phase(3, 2, true, 2, 1);
@@ -695,6 +751,7 @@ int main(int argc, char **argv) {
         if (T) { c03_orders_phase(3, 3, 1); c03_orders_phase(4, 2, 1); c03_phase(4, 2, true, 0, false); c03_phase(4, 2, false, 0, false); c03_phase(3, 3, true, 0, false); c03_phase(3, 3, false, 0, false); c03_phase(4, 2, true, 2, false); }
     } else if (PROP == "C04") {
         for (double pen : {0.0, 0.5, 3.0}) { c04_phase(4, 1, pen, true); c04_phase(T ? 4 : 3, 2, pen, true); c04_phase(4, 2, pen, false); }
+        c04_neartie_phase(3, 1, true); c04_neartie_phase(4, 1, false); c04_neartie_phase(3, 2, false); if (T) { c04_neartie_phase(4, 1, true); c04_neartie_phase(3, 2, true); c04_neartie_phase(4, 2, false); }
         if (T) { c04_phase(5, 1, 0, true); c04_phase(5, 2, 0, false); c04_phase(5, 2, 0.5, false); c04_phase(3, 3, 0, true); c04_phase(4, 3, 0, false); c04_phase(4, 3, 3, false); }
     } else if (PROP == "C05") {
         c05_bends(T ? 4 : 2);
